@@ -34,8 +34,8 @@ def sliced_wasserstein(PD1, PD2, M=50):
     if (len(l_theta1) != PD1.shape[0]) or (len(l_theta2) != PD2.shape[0]):
         raise ValueError("The projected points and origin do not match")
 
-    PD_delta1 = [[np.sqrt(x ** 2 / 2.0)] * 2 for x in l_theta1]
-    PD_delta2 = [[np.sqrt(x ** 2 / 2.0)] * 2 for x in l_theta2]
+    PD_delta1 = [[x / np.sqrt(2.0)] * 2 for x in l_theta1]
+    PD_delta2 = [[x / np.sqrt(2.0)] * 2 for x in l_theta2]
 
     # i have the input now to compute the sw
     sw = 0
